@@ -3,6 +3,7 @@ from __future__ import annotations
 
 import ast
 
+from ..algebra import NotPolynomial, Poly
 from ..fold import Arr, Folder, Refuse
 from ..report import AnalysisError
 from ..srcmodel import norm
@@ -260,6 +261,26 @@ def _factors(t):
     return None
 
 
+def _poly_of(t):
+    from ..fold import Arr, Opaque, Sym, is_num
+
+    if isinstance(t, Opaque):
+        return Poly.atom(t.label)
+    if is_num(t) and int(t) == t:
+        return Poly.const(int(t))
+    if isinstance(t, Sym) and t.fn in ("np.prod", "math.prod") and len(t.args) == 1 and not t.kw:
+        x = t.args[0]
+        xs = x.flat() if isinstance(x, Arr) else (list(x) if isinstance(x, (list, tuple)) else [x])
+        out = Poly.const(1)
+        for v in xs:
+            out = out * _poly_of(v)
+        return out
+    if isinstance(t, Sym) and t.fn in ("+", "-", "*", "/") and len(t.args) == 2 and t.recv is None:
+        a, b = _poly_of(t.args[0]), _poly_of(t.args[1])
+        return {"+": lambda: a + b, "-": lambda: a - b, "*": lambda: a * b, "/": lambda: a / b}[t.fn]()
+    raise NotPolynomial(repr(t))
+
+
 def _grid_init(ctx, R, m, init):
     """Grid.__init__ folded on a symbolic shape (1-3 axes) and voxel sizes given as a list resp. as one scalar, with _setup replaced by a stub
     that hands out one token per table it assigns: dim, voxel sizes and face areas are compared with the documented values, and no table
@@ -318,6 +339,16 @@ def _grid_init(ctx, R, m, init):
                 t = fv_l[ax] if fv_l is not None and len(fv_l) == d else None
                 fac = _factors(t) if t is not None else None
                 ok = fac is not None and sorted(map(id, fac)) == sorted(map(id, want))
+                if fac is None and t is not None:
+                    # quotient forms: compared as Laurent polynomials
+                    try:
+                        pw = Poly.const(1)
+                        for x in want:
+                            pw = pw * Poly.atom(x.label)
+                        ok = _poly_of(t) == pw
+                        fac = []
+                    except NotPolynomial:
+                        pass
                 dep = t is not None and shape_dep(t)
                 ctx.ob(R, init.qname, f"{what}: face_vol[{ax}] is the product of the voxel sizes of the other axes", ok,
                        (f"face_vol[{ax}] = {nf(t)[:140]}" + ("; a face area that depends on the number of cells (single-cell axes lose their extent)" if dep else
@@ -349,6 +380,7 @@ def _generate_grid(ctx, R, m, g, init):
             if row[0] == "ret":
                 cs_vs[a] = h[row[1][0]]
         image = Obj("image", {"__class__": "Image", "num_voxels": N, "voxel_size": h, "space_dim": d, "indexing": "ijk"[:d], "shape": tuple(N),
+                              "dimensions": [Opaque("float", f"D{k}") for k in range(d)],
                               "img": Opaque("ndarray", "IMG", {"shape": tuple(N)}),
                               "coordinatesystem": Obj("cs", {"voxel_size": cs_vs, "axes": "xyz"[:d], "dim": d, "indexing": "ijk"[:d], "shape": tuple(N)})})
         got = {}
@@ -376,7 +408,7 @@ def _generate_grid(ctx, R, m, g, init):
             ctx.ob(R, g.qname, title, False, f"fold of generate_grid not found to be possible: {e}", g.node)
             continue
         errs = [e for _, r, e in paths if e is not None and not isinstance(e, Raised)]
-        outs = [(log, r) for log, r, e in paths if e is None and r]
+        outs = [(log, r) for log, r, e in paths if e is None and r and init.params[1] in r]
         if errs or not outs:
             ctx.ob(R, g.qname, title, False, f"fold of generate_grid not found to be possible: {errs[0] if errs else 'call of Grid(...) not found in the fold'}", g.node)
             continue
@@ -393,6 +425,11 @@ def _generate_grid(ctx, R, m, g, init):
         sh = list(shape_arg) if isinstance(shape_arg, (list, tuple)) else (shape_arg.flat() if isinstance(shape_arg, Arr) else None)
         if sh is None or len(sh) != d or not all(x is y for x, y in zip(sh, N)):
             ok_shape = False
+            tsh = nf(shape_arg)
+            if (any(f"D{k}" in tsh for k in range(d)) or "dimensions" in tsh) and not (any(f"N{k}" in tsh for k in range(d)) or "num_voxels" in tsh or "shape" in tsh):
+                ctx.ob(R, g.qname, title, False, f"the grid shape is {tsh[:110]}: voxel counts re-derived from dimensions and voxel sizes by a truncating conversion instead of the image's "
+                       "own num_voxels -- round-off in the quotient (1.0 / 35 * 5) loses a cell, and a voxel size that is not the image's gives another grid than the data", g.node, evidence=True)
+                continue
         else:
             ok_shape = True
         # the constructor's own view of the voxel sizes it was given
